@@ -12,7 +12,9 @@ import (
 func c09Gen(r *rand.Rand, tier string) []spec.Case {
 	var out []spec.Case
 	add := func(kind string, steps ...string) {
-		out = append(out, spec.Case{Kind: kind, P: spec.MustJSON(spec.C09Case{Kind: kind, Steps: steps})})
+		// every other gRPC-kind case ends with a close that races with listener announcements
+		cr := kind != "mux" && len(out)%2 == 0
+		out = append(out, spec.Case{Kind: kind, P: spec.MustJSON(spec.C09Case{Kind: kind, Steps: steps, CloseRace: cr})})
 	}
 	sides := []string{"host", "plugin"}
 	common := []string{"dial-noaccept", "accept-nodial", "dial-twice", "accept-timeout-then-dial"}
@@ -154,6 +156,12 @@ func c09Judge(c spec.Case, evs []spec.Event, d *Death) CaseResult {
 	var end spec.C09End
 	if decodeD(findEv(evs, "obs", "end"), &end) && !end.ClosedOK {
 		viol("close-hung", "closing the client did not return within 20 s")
+	}
+	if end.CloseRaced {
+		res.Counters["closes_raced_with_accepts"]++
+		if end.StormStuck > 0 {
+			viol("accept-stuck-after-close", fmt.Sprintf("%d of 8 goroutines that were announcing listeners (Accept) when the client was closed had not returned 20 s later\n%s", end.StormStuck, end.StormDump))
+		}
 	}
 	sample["observed"] = obs
 	res.Sample = sample
